@@ -1,5 +1,5 @@
 """Property -> rules table.  Rules are functions (ctx, repo)."""
-from .rules import ndim, iface, wrappers, rng, mech, errmodels, popmodels, switch, copies, cursors, reduced, layout, noise
+from .rules import ndim, iface, wrappers, rng, mech, errmodels, popmodels, switch, copies, cursors, reduced, layout, noise, filters
 
 PROPS = {}
 
@@ -187,6 +187,29 @@ prop('C11',
                  'simulator gets the current dosing regimen re-attached and '
                  'that a replaced myokit model is followed by a refresh of '
                  'the name/count tables, on every path to a normal exit.')
+
+prop('C12',
+     [filters.r12_1, filters.r12_2, filters.r12_3, filters.r12_4,
+      filters.r12_5, CUR_FILTER],
+     undecided=['missing-data invariance (masked-array reduction '
+                'semantics)', 'permutation invariance over individuals',
+                'gradients of the KDE / mixture filters (softmax chain)'],
+     assumptions=TERM_ASSUME + [
+         'np.mean / np.var(ddof=1) over the simulated axis are the '
+         'documented estimators; logsumexp(x, axis=0) = log sum_s exp x_s'],
+     technique='term algebra with estimator atoms (MEAN, VAR1, LSE) on the '
+               'lifted scores; chain rule through the estimators for the '
+               'Gaussian / log-normal gradients; def-use rule for the '
+               'inverse-permutation pairing of the composed filter',
+     explanation='Decides that each of the five filters scores the sum over '
+                 'measurements of its documented log-density with the '
+                 'documented empirical estimates (axis, ddof, bandwidth, '
+                 'block split), that the score returned with the '
+                 'sensitivities is the same expression, that the Gaussian '
+                 'and log-normal gradients are the chain rule through mean '
+                 'and variance, and that the composed filter gathers inputs '
+                 'with the inverse permutation and outputs with the '
+                 'permutation.')
 
 prop('C13',
      [layout.r13_1, noise.r13_3, layout.r02_3, CUR_FILTER, switch.r03_5,
